@@ -17,7 +17,10 @@ terminated and no helper goroutine of the parser exists.
 -/
 namespace Ecal.Chan
 
-inductive Prod where | running | terminated deriving DecidableEq, Repr
+/-- the producer: still sending / about to close (`running`), past its `close(l.tokens)` — its LAST channel
+    operation and, by the extracted fact `closeLastInRun`, the last statement of `(*lexer).run` — with only
+    the return of the goroutine left (`closed`), gone (`terminated`) -/
+inductive Prod where | running | closed | terminated deriving DecidableEq, Repr
 inductive Cons where | parsing | draining | returned deriving DecidableEq, Repr
 inductive Mode where | sync | async | none deriving DecidableEq, Repr
 
@@ -30,7 +33,8 @@ structure St where
 
 inductive Ev where
   | recv        -- consumer (parsing) receives: a token (rendezvous with the producer's send) or "closed"
-  | close       -- producer: nothing left to send → close(l.tokens), goroutine ends
+  | close       -- producer: nothing left to send → close(l.tokens)
+  | exit        -- producer: returns from run (needs nobody else)
   | stop        -- consumer: the parse function reaches a return statement
   | drainRecv   -- deferred synchronous drain takes one token
   | drainEnd    -- deferred synchronous drain sees the closed channel; ParseWithRuntime has returned
@@ -45,11 +49,13 @@ def step (m : Mode) (s : St) : Ev → Option St
   | .recv =>
     if s.cons = .parsing then
       if 0 < s.toSend ∧ s.prod = .running then some { s with toSend := s.toSend - 1 }
-      else if s.prod = .terminated then some s        -- receive on a closed channel
+      else if s.prod ≠ .running then some s           -- receive on a closed channel
       else none                                       -- blocks until the producer closes
     else none
   | .close =>
-    if s.prod = .running ∧ s.toSend = 0 then some { s with prod := .terminated } else none
+    if s.prod = .running ∧ s.toSend = 0 then some { s with prod := .closed } else none
+  | .exit =>
+    if s.prod = .closed then some { s with prod := .terminated } else none
   | .stop =>
     if s.cons = .parsing then
       match m with
@@ -60,11 +66,12 @@ def step (m : Mode) (s : St) : Ev → Option St
   | .drainRecv =>
     if s.cons = .draining ∧ 0 < s.toSend ∧ s.prod = .running then some { s with toSend := s.toSend - 1 } else none
   | .drainEnd =>
-    if s.cons = .draining ∧ s.prod = .terminated then some { s with cons := .returned } else none
+    -- `for range b.tokens` ends when it OBSERVES THE CLOSED CHANNEL (not "when the producer is gone")
+    if s.cons = .draining ∧ s.prod ≠ .running then some { s with cons := .returned } else none
   | .helpRecv =>
     if s.helper = true ∧ 0 < s.toSend ∧ s.prod = .running then some { s with toSend := s.toSend - 1 } else none
   | .helpEnd =>
-    if s.helper = true ∧ s.prod = .terminated then some { s with helper := false } else none
+    if s.helper = true ∧ s.prod ≠ .running then some { s with helper := false } else none
 
 /-- run a list of events (`none` if one of them is not enabled) -/
 def exec (m : Mode) : St → List Ev → Option St
@@ -73,13 +80,19 @@ def exec (m : Mode) : St → List Ev → Option St
     | some s' => exec m s' es
     | none => none
 
-def allEv : List Ev := [.recv, .close, .stop, .drainRecv, .drainEnd, .helpRecv, .helpEnd]
+def allEv : List Ev := [.recv, .close, .exit, .stop, .drainRecv, .drainEnd, .helpRecv, .helpEnd]
 
 /-- some goroutine can move -/
 def canMove (m : Mode) (s : St) : Bool := allEv.any fun e => (step m s e).isSome
 
-/-- nothing of the parser is left: the state the property demands at the return -/
-def clean (s : St) : Bool := s.prod = .terminated && !s.helper
+/-- what the property demands at the return: no helper goroutine, and the producer is past its last channel
+    operation (channel closed) — it needs no partner any more and is gone after its own `exit` step -/
+def clean (s : St) : Bool := s.prod != .running && !s.helper
+
+/-- the drain mode selected by the synchronisation skeleton extracted from the source (`Gen/C07.lean`) -/
+def modeOf (drainMode : String) : Option Mode :=
+  if drainMode = "sync" then some .sync else if drainMode = "async" then some .async
+  else if drainMode = "none" then some .none else none
 
 /-- deterministic schedule used by the driver: the consumer receives `k` times (or until the
     channel is closed), stops, and the deferred drain runs until the call has returned.
